@@ -5,6 +5,7 @@ import XmppModel.Lemmas.NegotiateOnce
 import XmppModel.Lemmas.NegotiateAdv
 import XmppModel.Lemmas.NegotiateReach
 import XmppModel.Lemmas.NegotiateTerm
+import XmppModel.Lemmas.NegotiateDriver
 import XmppModel.Generated.C01
 /-!
 # C01 — features are negotiated only when allowed, in order, at most once
@@ -265,6 +266,16 @@ theorem C01_terminates (C : List Feature) (O : Oracle) (st0 : St) (script : List
       (init st0 script picks)).pc.final = true := by
   apply run_final
   simp [Negotiate.measure, init, pend, localRank]
+
+/-- the loop of the compiled driver (`Driver/C01.lean`, which answers the protocol lines of C01
+and C04) computes exactly `run` of the model these theorems are about, and with the fuel it
+uses it always ends in a final control point (it never answers `fuel`) -/
+theorem C01_driver_runs_model (C : List Feature) (O : Oracle) (st0 : St) (script : List Peer)
+    (picks : List FName) :
+    Driver.C01.runFast C O (Driver.C01.fuelFor C script picks) (init st0 script picks) =
+      run C O (Driver.C01.fuelFor C script picks) (init st0 script picks) ∧
+    (Driver.C01.runFast C O (Driver.C01.fuelFor C script picks) (init st0 script picks)).pc.final = true :=
+  ⟨runFast_eq_run C O _ _, driver_final C O st0 script picks⟩
 
 /-! ### non-vacuity: concrete runs that satisfy the hypotheses of the theorems above -/
 
